@@ -1797,13 +1797,15 @@ func (s *Server) sendDelayedLWT(dt int64) {
 	for id, pk := range s.loop.willDelayed.GetAll() {
 		if dt > pk.Expiry {
 			s.publishToSubscribers(pk) // [MQTT-3.1.2-8]
-			if cl, ok := s.Clients.Get(id); ok {
-				if pk.FixedHeader.Retain {
-					s.retainMessage(cl, pk)
-				}
-				cl.Properties.Will = Will{} // [MQTT-3.1.2-10]
-				s.hooks.OnWillSent(cl, pk)
+			cl, ok := s.Clients.Get(id)
+			if !ok {
+				cl = s.NewClient(nil, LocalListener, id, true) // the session has expired meanwhile, its will is still due
 			}
+			if pk.FixedHeader.Retain {
+				s.retainMessage(cl, pk)
+			}
+			cl.Properties.Will = Will{} // [MQTT-3.1.2-10]
+			s.hooks.OnWillSent(cl, pk)
 			s.loop.willDelayed.Delete(id)
 		}
 	}
